@@ -261,6 +261,18 @@ impl<A: Tracker> Pie<A> {
   }
 }
 
+/// Verification hooks (cargo feature `gohla_pie_verif`, off by default).
+#[cfg(feature = "gohla_pie_verif")]
+pub mod verif {
+  pub use crate::store::verif::{EdgeDump, EdgeKind, NodeDump, StoreDump};
+  pub use pie_graph::verif::{hash_seed, set_hash_seed};
+
+  impl<A> crate::Pie<A> {
+    /// Read-only dump of the dependency store.
+    pub fn verif_dump_store(&self) -> StoreDump { self.0.verif_dump_store() }
+  }
+}
+
 /// A session in which builds are executed.
 #[repr(transparent)]
 pub struct Session<'p>(pie::SessionInternal<'p>);
